@@ -64,6 +64,13 @@ func (fr *Frame) exec(in ssa.Instruction) {
 		fr.mem[c] = z
 		fr.set(x, PtrV{Cell: c, Elem: elem})
 	case *ssa.Store:
+		if g, isG := x.Addr.(*ssa.Global); isG && ex.initCapture != nil {
+			// package initialiser being evaluated for its integer constants
+			if tv, ok := fr.get(x.Val).(TV); ok && tv.T.Op == "int" {
+				ex.initCapture[g] = tv.T
+			}
+			return
+		}
 		addr := fr.get(x.Addr)
 		val := fr.get(x.Val)
 		p, ok := addr.(PtrV)
